@@ -3,7 +3,7 @@
 # /repo HEAD + patch, `VERIF_REPO=<worktree> ./check <PROP> --tier quick` (thorough when quick misses).
 # Writes seeded/RESULTS.tsv: id, property, applies, quick result, thorough result, signatures.
 cd /verif
-out=seeded/RESULTS.tsv
+out=${OUT:-seeded/RESULTS.tsv}
 if [ -n "$ONLY" ] && [ -f $out ]; then for x in $ONLY; do grep -v "^$x	" $out > $out.tmp; mv $out.tmp $out; done; else printf 'seed\tproperty\tapplies\tquick\tthorough\tsignatures\n' > $out; fi
 for d in seeded/C*-*/; do
   id=$(basename $d); prop=${id%%-*}
